@@ -4,7 +4,6 @@ package c03
 
 import (
 	"fmt"
-	"sort"
 	"strings"
 
 	"github.com/foxcpp/maddy/internal/zzverif/mx"
@@ -15,11 +14,22 @@ type dinfo struct {
 	s      *mx.DeliverySummary
 	tgt    int
 	probe  bool
-	tokens map[string]string // token -> address the target accepted for it
-	all    map[string]bool   // tokens of every AddRcpt attempt (accepted or refused)
+	tokens map[string][]string // token -> addresses the target accepted for it (several after a 1:n rewrite)
+	all    map[string]bool     // tokens of every AddRcpt attempt (accepted or refused)
 }
 
 func (d *dinfo) closed() bool { return d.s.Commit != "" || d.s.Abort != "" }
+
+// delivered counts the accepted addresses of a token that this delivery committed successfully.
+func (d *dinfo) delivered(tok string) (ok, total int) {
+	for _, a := range d.tokens[tok] {
+		total++
+		if d.s.DeliveredTo(a) {
+			ok++
+		}
+	}
+	return
+}
 
 // failureLabel names the stage of a failing monitored event ("" = not a failure).
 func failureLabel(e mx.Event) string {
@@ -101,6 +111,28 @@ func replyCause(tx *ctx) string {
 	return "none"
 }
 
+// replyMsgID extracts the message id maddy put into the failure reply that ended tx.
+func replyMsgID(tx *ctx) string {
+	if tx == nil {
+		return ""
+	}
+	texts := []string{tx.Final.text()}
+	for _, rc := range tx.Rcpts {
+		if rc.Final != nil {
+			texts = append(texts, rc.Final.text())
+		}
+	}
+	for _, t := range texts {
+		if i := strings.Index(t, "(msg ID = "); i >= 0 {
+			rest := t[i+len("(msg ID = "):]
+			if j := strings.IndexByte(rest, ')'); j >= 0 {
+				return rest[:j]
+			}
+		}
+	}
+	return ""
+}
+
 func dupToken(tx *ctx, tok string) bool {
 	n := 0
 	for _, rc := range tx.Rcpts {
@@ -116,7 +148,7 @@ func termOf(tx *ctx) string {
 		return "unattributed"
 	}
 	t := tx.Term
-	if tx.Nested {
+	if tx.Nested && t != "ehlo" {
 		t = "nested-mail+" + t
 	}
 	return t
@@ -174,9 +206,9 @@ func judge(r *rep.Reporter, c *rep.Case, sc *scenario, rg *rig, eng *engine, mar
 		if s.StartClass != mx.OK {
 			continue
 		}
-		d := &dinfo{s: s, tgt: tgtIdx[s.Target], probe: startSeq[s.Delivery] > mark, tokens: map[string]string{}, all: map[string]bool{}}
+		d := &dinfo{s: s, tgt: tgtIdx[s.Target], probe: startSeq[s.Delivery] > mark, tokens: map[string][]string{}, all: map[string]bool{}}
 		for _, a := range s.Accepted {
-			d.tokens[tokenOf(a)] = a
+			d.tokens[tokenOf(a)] = append(d.tokens[tokenOf(a)], a)
 			d.all[tokenOf(a)] = true
 		}
 		for a := range s.Refused {
@@ -214,6 +246,11 @@ func judge(r *rep.Reporter, c *rep.Case, sc *scenario, rg *rig, eng *engine, mar
 		if rc := replyCause(tx); rc != "none" {
 			return rc
 		}
+		if id := replyMsgID(tx); id != "" && id != msgID {
+			// go-smtp hands the result of an earlier, abandoned BDAT transfer to this one
+			// (its Conn.dataResult field is shared with the goroutine of the old transfer)
+			return "reply-of-another-transaction"
+		}
 		if l, ok := lastFailure[msgID]; ok {
 			return l
 		}
@@ -231,6 +268,14 @@ func judge(r *rep.Reporter, c *rep.Case, sc *scenario, rg *rig, eng *engine, mar
 			term = "probe"
 		}
 		cause := causeOf(d.s.MsgID, tx)
+		switch strings.TrimPrefix(term, "nested-mail+") {
+		case "ehlo", "rset", "end", "probe", "unattributed":
+			// the way the transaction ended is the cause class; an earlier refused
+			// recipient etc. has nothing to do with it
+			if cause != "server-panic" {
+				cause = "none"
+			}
+		}
 		for _, ts := range d.s.Typestate {
 			switch {
 			case strings.Contains(ts, "closed twice"):
@@ -265,17 +310,17 @@ func judge(r *rep.Reporter, c *rep.Case, sc *scenario, rg *rig, eng *engine, mar
 				if d.probe || d.tgt != t || !d.all[rc.Token] {
 					continue
 				}
-				addr, acc := d.tokens[rc.Token]
+				nOK, nAll := d.delivered(rc.Token)
 				switch {
-				case !acc:
+				case nAll == 0:
 					reason = "refused-by-target"
-				case d.s.DeliveredTo(addr):
+				case nOK == nAll:
 					ok = true
 				case d.s.BodyKind == "":
 					reason = "no-body"
 				case d.s.BodyClass != mx.OK:
 					reason = "body-failed"
-				case d.s.Status[addr] != "":
+				case d.s.Commit == mx.OK:
 					reason = "status-failed"
 				case d.s.Commit == "" && d.s.Abort != "":
 					reason = "aborted"
@@ -391,18 +436,26 @@ func judge(r *rep.Reporter, c *rep.Case, sc *scenario, rg *rig, eng *engine, mar
 						}
 						seen[rc] = true
 						ts := sc.targetsOf(rc.Local, rc.Domain)
-						delivered := 0
+						delivered, partly := 0, false
 						for _, t := range ts {
 							for _, d2 := range group {
-								if a, ok := d2.tokens[rc.Token]; ok && d2.tgt == t && d2.s.DeliveredTo(a) {
+								if d2.tgt != t {
+									continue
+								}
+								nOK, nAll := d2.delivered(rc.Token)
+								if nAll > 0 && nOK == nAll {
 									delivered++
 									break
+								}
+								if nOK > 0 {
+									partly = true
 								}
 							}
 						}
 						switch {
-						case delivered == 0:
+						case delivered == 0 && !partly:
 						case delivered < len(ts):
+							// some target (or some copy after a 1:n rewrite) failed, another delivered: one reply cannot say both
 							r.Count("d_unjudged_lmtp_targets_disagree", 1)
 						default:
 							c.Violation(fmt.Sprintf("d/lmtp-recipient-refused-but-delivered/cause=%s", cause),
@@ -414,7 +467,4 @@ func judge(r *rep.Reporter, c *rep.Case, sc *scenario, rg *rig, eng *engine, mar
 			}
 		}
 	}
-	_ = sort.Strings
 }
-
-var _ = rep.Open
